@@ -67,6 +67,10 @@ FILEC = {
     "include-lit": ("read", "```{include} sent.md\n:literal:\n```\n"),
     "include-code": ("read", "```{include} sent.py\n:code: python\n```\n"),
     "include-sa": ("read", "```{include} sent.md\n:start-after: FILE\n```\n"),
+    "include-std-abs": ("read", "```{include} <@DIR@/sent.md>\n```\n"),
+    "include-std-abs-lit": ("read", "```{include} <@DIR@/sent.md>\n:literal:\n```\n"),
+    "include-numbered": ("read", "```{include} sent.py\n:literal:\n:number-lines: 3\n```\n"),
+    "include-endbefore": ("read", "```{include} sent.md\n:end-before: zzz-not-there-FILESENT\n```\n"),
     "rawfile": ("read", "```{raw} html\n:file: sent.html\n```\n"),
     "csvfile": ("read", "```{csv-table}\n:file: sent.csv\n```\n"),
     "rst-include": ("read", "```{eval-rst}\n.. include:: sent.rst\n```\n"),
@@ -177,7 +181,7 @@ class SecuritySystem(System):
                 kinds.append(kind)
             else:
                 kind, txt = FILEC[c]
-                parts.append(txt)
+                parts.append(txt.replace("@DIR@", str(self.dir)))
                 kinds.append(kind)
         body = "\n".join(parts)
         # inline constructs in one paragraph when all are inline
